@@ -7,7 +7,9 @@
 #include <memory>
 
 #include "common/genjson.hpp"
+#include "common/guard_page.hpp"
 #include "common/harness.hpp"
+#include "common/wb_edge.hpp"
 #include "common/refjson.hpp"
 #include "common/sonic_mv.hpp"
 
@@ -105,6 +107,43 @@ static bool plant(Src& s, NodeT& n, A& alloc, double v, int depth = 0) {
   return true;
 }
 
+// Borrowed strings placed back to back downwards from the last byte before a PROT_NONE page: the first string ends on
+// the last mapped byte, short ones that follow still lie inside the last vector block of the page.
+struct EdgeStrings {
+  GuardArena* arena;
+  size_t used = 0;
+  const char* place(const std::string& t) {
+    if (used + t.size() > arena->capacity()) return t.data();
+    used += t.size();
+    char* p = (char*)arena->hi() - used;
+    memcpy(p, t.data(), t.size());
+    return p;
+  }
+};
+template <class NodeT, class Alloc>
+static void build_edge(NodeT& dst, const MV& m, Alloc& a, EdgeStrings& es) {
+  switch (m.k) {
+    case MV::Str: dst.SetString(es.place(m.s), m.s.size()); break;
+    case MV::Arr:
+      dst.SetArray();
+      for (auto& e : m.a) {
+        NodeT c;
+        build_edge(c, e, a, es);
+        dst.PushBack(std::move(c), a);
+      }
+      break;
+    case MV::Obj:
+      dst.SetObject();
+      for (auto& kv : m.o) {
+        NodeT c;
+        build_edge(c, kv.second, a, es);
+        dst.AddMember(sonic_json::StringView(es.place(kv.first), kv.first.size()), std::move(c), a, false);
+      }
+      break;
+    default: build(dst, m, a, true); break;
+  }
+}
+
 static void property(Src& s, Case& c) {
   GenOpts go;
   static const int kNodes[] = {1, 4, 12, 40, 150};
@@ -128,6 +167,11 @@ static void property(Src& s, Case& c) {
   lay.ws = (int)s.index(2);
   std::string text = by_parse ? render(s, v, lay) : std::string();
   bool copy_strings = s.coin(1, 2);
+  // a third of the borrowed-string builds keep their strings at the end of a mapped page
+  bool edge = !by_parse && !copy_strings && s.coin(2, 3);
+  static GuardArena* arena = new GuardArena(8);
+  EdgeStrings es{arena};
+  if (edge) c.cls("strings:borrowed-at-page-end");
   c.note("value", refjson::write(v));
   c.cls(by_parse ? "built:parse" : "built:mutation-api");
   c.cls(freeing ? "alloc:freeing" : "alloc:pool");
@@ -148,7 +192,8 @@ static void property(Src& s, Case& c) {
       doc.Parse(text);
       if (doc.HasParseError()) { m = "ORACLE-SELF-CHECK: generated text rejected"; return; }
     } else {
-      build(doc, v, alloc, copy_strings);
+      if (edge) build_edge(static_cast<typename std::remove_reference<decltype(doc)>::type::NodeType&>(doc), v, alloc, es);
+      else build(doc, v, alloc, copy_strings);
     }
     if (nonfinite) {
       static const double bad[] = {std::numeric_limits<double>::infinity(), -std::numeric_limits<double>::infinity(),
@@ -170,6 +215,24 @@ static void property(Src& s, Case& c) {
   };
   if (freeing) { FreeDoc d; run(d); }
   else { Document d; run(d); }
+  if (m.empty() && !nonfinite && s.coin(1, 24)) {
+    // one scalar (short string, number, literal) at the end of a document, with every amount of space 1..94 left in the buffer:
+    // each kind of value reserves its own worst case before writing
+    MV x = gen_scalar(s, go);
+    if (x.k == MV::Str && x.s.size() > 8) x.s.resize(8);
+    if (x.k != MV::Real || std::isfinite(x.dbl())) {
+      Document alone;
+      build(alone, x, alone.GetAllocator(), true);
+      std::string want = alone.Dump();
+      refjson::Result rr = refjson::parse(want);
+      if (!rr.ok || !eq_ordered(rr.value, x)) m = "scalar alone: Dump() does not denote the value: " + printable(want, 80);
+      else {
+        c.cls("write-buffer-edge-sweep");
+        m = wb_edge_sweep([&](Node& n) { build(n, x, alone.GetAllocator(), false); }, want, 1, 94, c.subevals);
+        if (!m.empty()) m += " | scalar=" + printable(want, 80);
+      }
+    }
+  }
   if (!m.empty()) c.fail(m + " | value=" + printable(refjson::write(v), 300));
 }
 
